@@ -40,6 +40,22 @@ pub trait World {
     fn take_server(&mut self) -> Option<(crate::srv::Srv, crate::srv::Client)> {
         None
     }
+    /// every command of this world's alphabet (mutators and the probes of the current state), placeholders resolved
+    fn menu_here(&mut self) -> Vec<Vec<Vec<u8>>> {
+        Vec::new()
+    }
+    /// send a command on the acting connection without telling the model
+    fn raw_call(&mut self, _args: &[Vec<u8>]) -> Result<crate::resp::R, String> {
+        Err("not supported".into())
+    }
+    /// the implementation's dataset as text, times and ids relative to the history's epoch
+    fn raw_state(&mut self) -> String {
+        String::new()
+    }
+    /// wall-clock ms at the start of the current history (0 if the world does not use time)
+    fn epoch_ms(&self) -> u64 {
+        0
+    }
 }
 
 fn hist_of(v: &Value) -> Vec<usize> {
